@@ -754,9 +754,15 @@ PROPS = {
                        "encloser is the name handled last and is shown to exist' (seed C14-6, a stale candidate surviving a name the answer says nothing about, fails it); "
                        "nsec3_for_not_exists_no_ce says 'does not exist' securely only if a trusted NSEC3 without opt-out covers the name; nsec3_for_nxdomain (RFC 5155 8.4) only "
                        "with the closest encloser proof and such a cover for the wildcard at the closest encloser; the panic!()s for impossible validation states are unreachable. "
-                       "nsec3_label_to_hash and get_checked_nsec3 are functions of the group (spec function checked3), which is what lets the proofs name the NSEC3 records.",
+                       "nsec3_label_to_hash and get_checked_nsec3 are functions of the group (spec function checked3), which is what lets the proofs name the NSEC3 records. "
+                       "nsec3_for_nodata and nsec3_for_nodata_wildcard (real text): secure NODATA only from a trusted NSEC3 that matches the name and shows the type and CNAME absent, from the right side of a zone cut "
+                       "(RFC 5155 8.5 / 8.6), or -- wildcard NODATA, 8.7 -- with the closest encloser proof and such a record for the wildcard. "
+                       "The verdict on a whole answer: the tail of ValidationContext::validate_msg (real text from the point where the groups are validated and the alias chain has been followed; edit form FRAGMENT/tail, the "
+                       "head is read from a model of self) with utilities::map_maybe_secure: the verdict is Secure only if the chain of CNAME / DNAME records from QNAME to the final name was Secure (seed C14-5); a name error "
+                       "only with a secure SOA whose signer vouches for an NSEC or NSEC3 name-error proof in the sense of the contracts above; NODATA only with a secure SOA and one of the four NODATA proofs; a positive "
+                       "answer only if the answering group is Secure and, when it was expanded from a wildcard, the name itself is shown not to exist.",
         "not_covered": "Soundness of 'secure' beyond the 360 scenarios of the native search (signature chains to a trust anchor, NSEC/NSEC3 proofs), insecure-delegation handling, "
-                       "nsec3_for_nodata and nsec3_for_nodata_wildcard (the NODATA side of the NSEC3 proofs), what other tasks do to the shared hash cache between the await points of the "
+                       "do_cname_dname, validate_groups and everything before them in validate_msg (message to groups, signature chains: async code over caches and the upstream), get_answer_state / get_soa_state / check_not_exists_for_wildcard (loops over the groups: uninterpreted functions of their arguments here), what other tasks do to the shared hash cache between the await points of the "
                        "async functions (the cache is modelled as a function: the hash of a name under given parameters), every other panic site of the "
                        "validator (e.g. nsec3_hash(..).unwrap()), loops: async code over caches and crypto, out of reach. That every group of type NSEC "
                        "carries NSEC data (the precondition that makes get_checked_nsec's panic unreachable) is established where groups are built from "
